@@ -740,7 +740,7 @@ pub fn check(a: CheckArgs) -> i32 {
         .with("known_findings_hit", J::Arr(known_hit.iter().map(|k| J::s(k.clone())).collect()))
         .with(
             "real_vs_stub",
-            J::s("real: packet/convert codec, socket.rs, server.rs listen+handlers, worker.rs, window.rs, config.rs, client.rs (C14/C16), file system (tmpfs sandbox), OS threads; simulated: kernel UDP, socket timeouts, mpsc wake-ups, Instant, sleep, who-runs-next; model: client peers with an independent RFC codec"),
+            J::s("real: packet/convert codec, socket.rs, server.rs listen+handlers, worker.rs, window.rs, config.rs, client.rs (C14/C16), file system (tmpfs sandbox; write errors and torn writes injected at the hook before write_all, short writes produced by the kernel itself under a momentary RLIMIT_FSIZE, a FIFO among the served files parks its opener), OS threads; simulated: kernel UDP, socket timeouts, mpsc wake-ups, Instant, sleep, who-runs-next; model: client peers with an independent RFC codec; watchdog: a released thread that does not reach a scheduling point within 60 real seconds ends the worker process (exit 71) and is reported as <ID>.task_stuck"),
         );
     let ev = J::obj()
         .with("property_id", J::s(a.prop))
@@ -795,7 +795,7 @@ pub fn expected_probes(prop: &str) -> Vec<&'static str> {
         "C01" => vec!["partial_window_ack", "dup_or_stale_ack", "future_ack", "timeout_retransmission"],
         "C02" => vec!["out_of_order_or_duplicate_data", "unexpected_packet_at_worker", "re_ack_of_last_block"],
         "C04" => vec!["timeout_retransmission", "partial_window_ack", "re_ack_of_last_block"],
-        "C07" => vec!["error_delivered_to_worker", "partial_ack_after_eof"],
+        "C07" => vec!["error_delivered_to_worker", "partial_ack_after_eof", "gave_up_after_six_failed_receives"],
         "C08" => vec!["dup_or_stale_ack", "stale_ack_at_w65535", "timeout_retransmission", "gap_retransmission_after_partial_ack"],
         _ => vec![],
     }
